@@ -734,6 +734,10 @@ type Cond struct {
 // successor of an If. Short-circuit && / || are decomposed by go/ssa into
 // nested Ifs, so conjunctions appear as several Conds.
 func CondsAt(b *ssa.BasicBlock) []Cond {
+	return normalizeAll(rawCondsAt(b), 0)
+}
+
+func rawCondsAt(b *ssa.BasicBlock) []Cond {
 	var out []Cond
 	for b != nil {
 		d := b.Idom()
@@ -983,14 +987,150 @@ func RecvNamed(f *ssa.Function) *types.Named {
 // on this edge.
 func EdgeConds(pred, succ *ssa.BasicBlock) []Cond {
 	out := CondsAt(pred)
+	if own, ok := EdgeOwnCond(pred, succ); ok {
+		out = append(out, normalizeAll([]Cond{own}, 0)...)
+	}
+	return out
+}
+
+// EdgeOwnCond is the outcome of pred's own If on the edge to succ (raw, not normalised).
+func EdgeOwnCond(pred, succ *ssa.BasicBlock) (Cond, bool) {
 	if len(pred.Instrs) > 0 {
 		if iff, ok := pred.Instrs[len(pred.Instrs)-1].(*ssa.If); ok && pred.Succs[0] != pred.Succs[1] {
 			if pred.Succs[0] == succ {
-				out = append(out, Cond{iff.Cond, true, iff})
+				return Cond{iff.Cond, true, iff}, true
 			} else if pred.Succs[1] == succ {
-				out = append(out, Cond{iff.Cond, false, iff})
+				return Cond{iff.Cond, false, iff}, true
 			}
 		}
+	}
+	return Cond{}, false
+}
+
+// normalizeAll rewrites branch outcomes into their simplest conjunctive form:
+// `true == x`, `x == true`, `!x` are stripped (go/ssa v0.29 compiles a tagless
+// switch case as `true == <expr>`), and a boolean phi produced by a
+// short-circuit && / || is expanded when the outcome pins down one path
+// ((a||b) false ⇒ ¬a ∧ ¬b ; (a&&b) true ⇒ a ∧ b).
+func normalizeAll(cs []Cond, depth int) []Cond {
+	var out []Cond
+	for _, c := range cs {
+		out = append(out, normalizeCond(c, depth)...)
+	}
+	return out
+}
+
+func boolConst(v ssa.Value) (bool, bool) {
+	k, ok := v.(*ssa.Const)
+	if !ok || k.Value == nil || k.Value.Kind() != constant.Bool {
+		return false, false
+	}
+	return constant.BoolVal(k.Value), true
+}
+
+func stripBool(c Cond) Cond {
+	for i := 0; i < 6; i++ {
+		switch x := c.V.(type) {
+		case *ssa.UnOp:
+			if x.Op == token.NOT {
+				c = Cond{x.X, !c.Truth, c.If}
+				continue
+			}
+		case *ssa.BinOp:
+			if x.Op == token.EQL || x.Op == token.NEQ {
+				if k, ok := boolConst(x.X); ok {
+					t := c.Truth
+					if (x.Op == token.EQL) != k {
+						t = !t
+					}
+					c = Cond{x.Y, t, c.If}
+					continue
+				}
+				if k, ok := boolConst(x.Y); ok {
+					t := c.Truth
+					if (x.Op == token.EQL) != k {
+						t = !t
+					}
+					c = Cond{x.X, t, c.If}
+					continue
+				}
+			}
+		}
+		break
+	}
+	return c
+}
+
+func normalizeCond(c Cond, depth int) []Cond {
+	c = stripBool(c)
+	phi, ok := c.V.(*ssa.Phi)
+	if !ok || depth > 4 {
+		return []Cond{c}
+	}
+	alts := CondAlternatives(c, depth)
+	if len(alts) == 1 {
+		return alts[0]
+	}
+	_ = phi
+	return []Cond{c}
+}
+
+// CondAlternatives expands the outcome of a boolean short-circuit phi into the
+// alternative paths (each a conjunction) under which it holds. A non-phi
+// outcome has the single alternative {c}.
+func CondAlternatives(c Cond, depth int) [][]Cond {
+	c = stripBool(c)
+	phi, ok := c.V.(*ssa.Phi)
+	if !ok || depth > 4 {
+		return [][]Cond{{c}}
+	}
+	b := phi.Block()
+	var alts [][]Cond
+	for i, e := range phi.Edges {
+		pred := b.Preds[i]
+		if k, isK := boolConst(e); isK {
+			if k != c.Truth {
+				continue // this path yields the other value
+			}
+			// the path through pred's own branch
+			path := localConds(pred, b.Idom())
+			if own, ok := EdgeOwnCond(pred, b); ok {
+				path = append(path, normalizeAll([]Cond{own}, depth+1)...)
+			}
+			alts = append(alts, path)
+			continue
+		}
+		// value edge: e evaluated in (a block dominating) pred, after the earlier operands went the other way
+		path := localConds(pred, b.Idom())
+		for _, sub := range CondAlternatives(Cond{e, c.Truth, c.If}, depth+1) {
+			alts = append(alts, append(append([]Cond{}, path...), sub...))
+		}
+	}
+	if len(alts) == 0 {
+		return [][]Cond{{c}}
+	}
+	return alts
+}
+
+// localConds lists the branch outcomes that dominate blk but not `above`
+// (the conditions accumulated inside one short-circuit expression).
+func localConds(blk, above *ssa.BasicBlock) []Cond {
+	var out []Cond
+	b := blk
+	for b != nil && b != above {
+		d := b.Idom()
+		if d == nil {
+			break
+		}
+		if len(b.Preds) == 1 && b.Preds[0] == d {
+			if own, ok := EdgeOwnCond(d, b); ok {
+				out = append(out, normalizeAll([]Cond{own}, 3)...)
+			}
+		}
+		if d == above {
+			break
+		}
+		b = d
 	}
 	return out
 }
